@@ -130,6 +130,10 @@ func (tx *Tx) Rollback() error {
 		}
 	}
 
+	if tx.target == nil {
+		// an XA branch has no local transaction underneath (Conn.BeginTx passes a nil target)
+		return nil
+	}
 	return tx.target.Rollback()
 }
 
